@@ -238,9 +238,9 @@ impl OverlayBuilder {
                 entry.build_count += 1;
                 entry.clone()
             } else {
-                trace!("Creating toolchain directory for {}", tc.archive_id);
-                fs::create_dir(&toolchain_dir)?;
-
+                // Look the toolchain up before creating its directory: the cache refuses
+                // identifiers that are not digests, and the directory name is built from
+                // the (client-supplied) identifier.
                 let mut tccache = tccache.lock().unwrap();
                 let toolchain_rdr = match tccache.get(tc) {
                     Ok(rdr) => rdr,
@@ -251,6 +251,9 @@ impl OverlayBuilder {
                         return Err(Error::from(e).context("failed to get toolchain from cache"))
                     }
                 };
+
+                trace!("Creating toolchain directory for {}", tc.archive_id);
+                fs::create_dir(&toolchain_dir)?;
 
                 tar::Archive::new(GzDecoder::new(toolchain_rdr))
                     .unpack(&toolchain_dir)
